@@ -63,6 +63,7 @@ class Store:
         self.page_size = 1000
         self.requests = 0
         self.history: List[tuple] = []      # (gstep, actor, op, key, outcome) for oracles
+        self.stream_faults = False          # GET bodies are seams of their own (C20 turns this on)
         self.keep_history = False
 
     def bucket(self, name: str) -> Dict[str, Obj]:
@@ -76,11 +77,21 @@ class Store:
 
 
 class Body:
-    def __init__(self, data: bytes):
+    """Streaming body of a GET response.  Every read() of a non-empty remainder is a seam of its own ("get_body"): the
+    response headers have arrived, the bytes are still on the wire - a fault here is a connection reset / read timeout
+    in the middle of the download."""
+
+    def __init__(self, data: bytes, seam=None):
         self._d = data
         self._p = 0
+        self._seam = seam
 
     def read(self, n: Optional[int] = None) -> bytes:
+        if self._seam is not None and self._p < len(self._d) and (n is None or n != 0):
+            return self._seam(lambda: self._read(n))
+        return self._read(n)
+
+    def _read(self, n: Optional[int] = None) -> bytes:
         if n is None or n < 0:
             r = self._d[self._p:]
             self._p = len(self._d)
@@ -136,6 +147,20 @@ class FakeS3Client:
             return r
         return sim.seam(op, cls, rel, do2, fail=lambda n: make_exc(n, opname), detail=detail)
 
+    def _call_body(self, key: str, do):
+        sim = cur_sim()
+        if sim is None or sim.me() is None:
+            return do()
+        rel = self._rel(key)
+        cls = classify_rel(rel) if not rel.startswith("<") else "OUTSIDE"
+
+        def streaming_failure(name: str):
+            # whatever the fault is called, mid-body it surfaces as a transport error, never as an S3 error document
+            if name in ("ReadTimeoutError", "AccessDenied"):
+                return bex.ReadTimeoutError(endpoint_url="http://fake-s3")
+            return bex.ResponseStreamingError(error="injected connection reset while streaming the body")
+        return sim.seam("get_body", cls, rel, do, fail=streaming_failure)
+
     # -- API
     def get_object(self, Bucket: str, Key: str, Range: Optional[str] = None, **kw):
         def do():
@@ -161,7 +186,10 @@ class FakeS3Client:
                 # a GET also tells the caller the object's age (LastModified): it is an inspection like a HEAD
                 sim.extra.setdefault("lock_heads", []).append(
                     (sim.gstep + 0, cur_actor().name if cur_actor() else "-", sim.true_time(), o.mtime, _owner(o.body)))
-            return {"Body": Body(data), "ETag": o.etag, "LastModified": _stamp(o.mtime),
+            body_seam = None
+            if self.store.stream_faults:
+                body_seam = lambda do_read: self._call_body(Key, do_read)      # noqa: E731
+            return {"Body": Body(data, body_seam), "ETag": o.etag, "LastModified": _stamp(o.mtime),
                     "ContentLength": len(data)}
         return self._call("get", Key, do, "GetObject")
 
